@@ -43,7 +43,7 @@ func TestMain(m *testing.M) {
 		"type integer accepts integer kinds and integer-valued floats; type number accepts every numeric kind; format int32 restricts to the int32 range, float to the float32 range",
 		"a required parameter that does not allow empty values rejects the string \"\" (Required && !AllowEmptyValue, no default declared); nothing else depends on Required/In",
 		"[]uint8 is Go's []byte, which the library maps to string/byte by design (type.go:63): not generated, excluded on replay",
-		"nil elements inside []interface{} are not generated (the quantifier lists typed values); uniqueItems on []interface{} holding equal numbers in different kinds is excluded and counted",
+		"a nil element inside a []interface{} (a JSON null inside an array value) is never of the declared item type: the value is invalid unless the items declare nothing that an element could violate",
 		"definitions carry no default; patterns compile; the registry is strfmt.Default and its verdict is taken as the meaning of date/uuid/email")
 	ev.Main(m, "C16")
 }
